@@ -2,7 +2,9 @@ CONSTANTS
   Decls <- DDecls
   Roots <- DRoots
   Bases <- DBases
+  Classes <- DClasses
 INIT Init
 NEXT Next
 INVARIANT Report
+INVARIANT ExportPair
 CHECK_DEADLOCK FALSE
